@@ -51,12 +51,14 @@ ASSUMPTIONS = [
     "code comment promises that the imaginary part is reset; the unjudged imaginary parts are re-read from _data",
     "operands are ones a caller may pass: complex values only to vectors under complex step, vector operands of the "
     "same size, in-range indices; anything else is skipped (class op_skipped), never judged",
+    "Vector.get_val is called with the names its docstring documents (promoted or relative); _abs_get_val/_abs_set_val "
+    "with absolute names",
     "unit factors come from an own table (agrees with openmdao.utils.units to the last bit for these units); a relative "
     "slack of 1e-13 is added wherever a unit factor enters an expected value",
 ]
 BOUND = {'quick': '16 shards x 300 generated cases', 'thorough': '32 shards x 2500 generated cases'}
-MIN_CLASS_FRACTION = {'scaling_op': 0.3, 'sub_vec_op': 0.3, 'cs_mode': 0.1, 'input_scaling_op': 0.03,
-                      'rev_scaling_op': 0.01, 'named_write': 0.3}
+MIN_CLASS_FRACTION = {'scaling_op': 0.3, 'sub_vec_op': 0.3, 'cs_mode': 0.2, 'input_scaling_op': 0.15,
+                      'rev_scaling_op': 0.05, 'named_write': 0.3}
 
 EPS = float(np.finfo(float).eps)
 REL_U = 1e-13
@@ -1329,6 +1331,33 @@ class Machine(object):
 # check
 # ---------------------------------------------------------------------------------------------
 
+def static_classes(case):
+    """Distribution labels read off the generated operation list (used when the case dies before the operations run,
+    so that a broken setup is reported as a violation and not as a generator-distribution error)."""
+    cls = set()
+
+    def walk(ops):
+        for op in ops:
+            name = op.get('op')
+            if name == 'ctx':
+                cls.add('scaling_op')
+                walk(op.get('body', []))
+            elif name == 'scale_rt':
+                cls.add('scaling_op')
+                if op['v'][1] == 'input':
+                    cls.add('input_scaling_op')
+                    if op.get('mode') == 'rev':
+                        cls.add('rev_scaling_op')
+            elif name == 'cs' and op.get('on'):
+                cls.add('cs_mode')
+            elif name in ('setitem', 'set_var', 'abs_set') or (name == 'getitem' and op.get('write')):
+                cls.add('named_write')
+            if 'v' in op and op['v'][0] != '':
+                cls.add('sub_vec_op')
+    walk(case['ops'])
+    return cls
+
+
 def check(case):
     import warnings
     res = Result()
@@ -1338,14 +1367,14 @@ def check(case):
         try:
             m.start()
         except Skip:
-            res.classes = sorted(m.classes | {'layout_failed'})
+            res.classes = sorted(m.classes | static_classes(case) | {'layout_failed'})
             return res
         except Exception as e:
             sig = core.repo_frame_signature(e)
             if sig is None:
                 raise
             res.fail(f"setup:{sig}", f"{type(e).__name__}: {e}")
-            res.classes = ['setup_failed']
+            res.classes = sorted(static_classes(case) | {'setup_failed'})
             return res
         m.run_ops(case['ops'])
         # leave complex step mode in a defined state and sweep all named access
